@@ -87,6 +87,24 @@ Round 5 (seeded r5m1 stale tail pointer after a position-preserving move of the 
   tail; k<0 = the tail pair) and every sort is followed by a consistency check of list(graph) against
   reversed(graph), len(graph), graph[0], graph[-1]; 15% of the cases run all their sorts inside 1-2 active
   onnx_ir.journaling.Journal()s (result must equal the model's).
+Second deepening round (2026-09-26):
+  * C12_writeback_views_agree: the write-back extend(new) of every graph of a successfully sorted scope, run on
+    the box-level DoublyLinkedSet model of property C11 (imported read-only), leaves the set well formed with forward
+    iteration, backward iteration, len, indexing and membership all describing `new` (Proofs8: C11's list-level
+    extend = Model.relink on duplicate-free lists).  The oracle's sequence-consistency check stays as the
+    implementation-side observation.
+  * C12_frame: Model.sort_in root t (sort called on graph t inside the forest root) keeps every graph outside the
+    scope of t, whatever the outcome.  The case files now embed the whole forest, the target and the orders of
+    EVERY graph, compared with sort_in inside Coq (before: scope only, the rest oracle-only).
+  * C12_collection_is_model: the predecessor-collection loop is no longer pinned textually but translated
+    (_translate_collection: scope guard of add_predecessor, GRAPH / GRAPHS branches, order of the two inner loops
+    read from the source; other shapes Unsupported) into Gen/C12Gen.gen_collect and proved equal to the model's
+    predecessor list for every node of a scope.  Not observed directly on the implementation (node_predecessors
+    is a local of sort()); tied through the end-to-end correspondence.  Values without producer (graph inputs) are
+    not generated separately: the model identifies them with None inputs.
+  * C12_no_self_nesting: a scope is a finite tree (nested nodes strictly smaller).  A self-nested Graph object can
+    be built through the API but has no serialised form and is outside the quantifier; RecursionError, nothing
+    re-linked (probe_wf_breakers).
 Modelled, not verified: heapq (contract only), DoublyLinkedSet internals (C11), node.graph bookkeeping
   and name authority (C01), dict/set iteration order (independent per-graph relinking).
 Finding, fixed in /repo by 86f4e6a (known_findings.d/C12.json, status "fixed"): a GRAPH/GRAPHS-typed
@@ -285,7 +303,7 @@ def translate_sort() -> str:
     _pin(ab[1], "if predecessor not in node_depth:\n    return", "add_predecessor guard 2")
     _pin(ab[2], "node_predecessors[child].append(predecessor)", "add_predecessor append")
     depth_inc = _aug(ab[3], "node_depth[predecessor]", "d")
-    _pin(b[6], PIN_BUILD_LOOP, "step 1 (predecessor collection)")
+    collect = _translate_collection(b[6], ab)
     st = b[7]
     if not (isinstance(st, ast.AnnAssign) and ast.unparse(st.target) == "priority_queue"
             and isinstance(st.value, ast.ListComp) and ast.unparse(st.value.elt) == "(neg_node_index[node], node)"
@@ -354,6 +372,78 @@ def translate_sort() -> str:
         raise Unsupported("TopologicalSortPass.call changed:\n" + "\n".join(ast.unparse(x) for x in pc))
     b2 = "true" if check_first else "false"
     b3 = "true" if reversed_ else "false"
+    return _GEN_TEMPLATE(locals())
+
+
+def _translate_collection(loop, add_body) -> str:
+    """Step 1 of Graph.sort (`for node in nodes:` with its input loop and its attribute loop, and the guards of
+    add_predecessor) -> Gallina folds over the Python-level view of a node (GenModel.pyin / pyat).  The scope
+    guard of add_predecessor, each of the GRAPH / GRAPHS branches and the order of the two inner loops are read
+    from the source; everything else must have the expected shape."""
+    import ast
+    if not (isinstance(loop, ast.For) and ast.unparse(loop.target) == "node" and ast.unparse(loop.iter) == "nodes"
+            and not loop.orelse and len(loop.body) == 2 and all(isinstance(x, ast.For) for x in loop.body)):
+        raise Unsupported("step 1: expected `for node in nodes:` with two inner loops")
+    # add_predecessor: `if predecessor is None: return` is required (else None would be appended);
+    # `if predecessor not in node_depth: return` is translated
+    scope_guard = ast.unparse(add_body[1]) == "if predecessor not in node_depth:\n    return"
+    add = ("match p with None => acc | Some q => "
+           + ("if scope q then acc ++ [q] else acc" if scope_guard else "acc ++ [q]") + " end")
+    parts = {}
+    for inner in loop.body:
+        it = ast.unparse(inner.iter)
+        if it == "node.inputs" and ast.unparse(inner.target) == "input_value":
+            if len(inner.body) != 3:
+                raise Unsupported("input loop: " + ast.unparse(inner))
+            _pin(inner.body[0], "if input_value is None:\n    continue", "input loop guard")
+            _pin(inner.body[1], "predecessor_node = input_value.producer()", "producer lookup")
+            _pin(inner.body[2], "add_predecessor(node, predecessor_node)", "input loop add_predecessor")
+            parts["inputs"] = ("fold_left (fun acc iv => match iv with PNone => acc | PVal p => gen_add scope acc p end) "
+                               "ins acc")
+        elif it == "node.attributes.values()" and ast.unparse(inner.target) == "attr":
+            if len(inner.body) != 2:
+                raise Unsupported("attribute loop: " + ast.unparse(inner))
+            _pin(inner.body[0], "if not isinstance(attr, Attr) or attr.is_ref():\n    continue", "attribute loop guard")
+            branches = {"PGraph l": "acc", "PGraphs ls": "acc"}
+            node_if = inner.body[1]
+            while node_if is not None:
+                if not isinstance(node_if, ast.If):
+                    raise Unsupported("attribute type dispatch: " + ast.unparse(node_if))
+                test = ast.unparse(node_if.test)
+                body = "\n".join(ast.unparse(x) for x in node_if.body)
+                if test == "attr.type == _enums.AttributeType.GRAPH" and \
+                        body == "for predecessor_node in attr.value:\n    add_predecessor(node, predecessor_node)":
+                    branches["PGraph l"] = "fold_left (fun acc q => gen_add scope acc (Some q)) l acc"
+                elif test == "attr.type == _enums.AttributeType.GRAPHS" and \
+                        body == ("for attribute_graph in attr.value:\n    for predecessor_node in attribute_graph:\n"
+                                 "        add_predecessor(node, predecessor_node)"):
+                    branches["PGraphs ls"] = ("fold_left (fun acc l => fold_left (fun acc q => gen_add scope acc (Some q)) l acc) "
+                                              "ls acc")
+                else:
+                    raise Unsupported("attribute type branch: " + test + " / " + body)
+                if len(node_if.orelse) > 1:
+                    raise Unsupported("attribute type dispatch else-part")
+                node_if = node_if.orelse[0] if node_if.orelse else None
+            parts["attrs"] = ("fold_left (fun acc a => match a with POther => acc | PRef => acc | PGraph l => "
+                              + branches["PGraph l"] + " | PGraphs ls => " + branches["PGraphs ls"] + " end) ats acc")
+        else:
+            raise Unsupported("step 1: unexpected inner loop over " + it)
+    if set(parts) - {"order"} != {"inputs", "attrs"}:
+        raise Unsupported("step 1: need one input loop and one attribute loop")
+    first_inputs = ast.unparse(loop.body[0].iter) == "node.inputs"
+    chain = ("gen_attrs scope (gen_inputs scope [] ins) ats" if first_inputs
+             else "gen_inputs scope (gen_attrs scope [] ats) ins")
+    return (f"Definition gen_add (scope : nat -> bool) (acc : list nat) (p : option nat) : list nat :=\n  {add}.\n"
+            f"Definition gen_inputs (scope : nat -> bool) (acc : list nat) (ins : list pyin) : list nat :=\n  {parts['inputs']}.\n"
+            f"Definition gen_attrs (scope : nat -> bool) (acc : list nat) (ats : list pyat) : list nat :=\n  {parts['attrs']}.\n"
+            "(* node_predecessors[node] after step 1, for a node with inputs `ins` and attributes `ats` *)\n"
+            f"Definition gen_collect (scope : nat -> bool) (ins : list pyin) (ats : list pyat) : list nat :=\n  {chain}.\n")
+
+
+def _GEN_TEMPLATE(v: dict) -> str:
+    key, depth_init, depth_inc, ready = v["key"], v["depth_init"], v["depth_inc"], v["ready"]
+    count_init, count_inc, depth_dec, push = v["count_init"], v["count_inc"], v["depth_dec"], v["push"]
+    cycle, exn, b2, b3, collect = v["cycle"], v["exn"], v["b2"], v["b3"], v["collect"]
     return f"""(* GENERATED by harness/props/c12.py (translate_sort) from src/onnx_ir/_core.py Graph.sort — do not edit. *)
 From Coq Require Import ZArith List Bool.
 From IRV Require Import Base.Exn C12.GenModel.
@@ -371,7 +461,8 @@ Definition gen_src : sort_src := {{|
   s_check_before_relink := {b2};
   s_relink_reversed := {b3}
 |}}.
-"""
+Import ListNotations.
+{collect}"""
 
 
 def generate(ck) -> bool:
@@ -981,9 +1072,11 @@ Fixpoint nodupb (l : list nat) : bool :=
 (* the hypothesis `wf` of the theorems, decided on every generated case *)
 Definition wf_b (g : graph) : bool :=
   nodupb (flat_of (entries g)) && nodupb (map fst (orders g)) && forallb (fun go => nodupb (snd go)) (orders g).
-(* third component: whether the case is expected to satisfy wf (false only for the shared-subgraph stream) *)
-Definition agree1 (c : graph * (res unit * list (nat * list nat)) * bool) : bool :=
-  let '(g, (r, o), w) := c in let '(r', o') := sort_graph g in
+(* last component: whether the case is expected to satisfy wf (false only for the shared-subgraph stream);
+   first components: the whole forest and the id of the graph sort() is called on; the expected orders list
+   EVERY graph of the forest (frame: graphs outside the sorted scope included) *)
+Definition agree1 (c : graph * nat * (res unit * list (nat * list nat)) * bool) : bool :=
+  let '(g, t, (r, o), w) := c in let '(r', o') := sort_in g t in
   Bool.eqb (wf_b g) w && res_eqb (fun _ _ => true) r' r && ord_eqb o' o.
 Definition agreeP (c : list graph * (res bool * list (list (nat * list nat)))) : bool :=
   let '(us, (r, o)) := c in let '(r', o') := sort_pass us in
@@ -1004,11 +1097,12 @@ def case_files(cases: list[tuple[dict, dict]], per_file: int = 250) -> list[tupl
                 o = clist(c_orders(u, obs["after"]) for u in case["units"])
                 passes.append((i, f"({us}, ({c_res(obs['outcome'], 'true' if obs['modified'] else 'false')}, {o}))"))
             else:
-                g = find_graph(case, case["target"])
+                g = case["units"][0]
                 w = "false" if case.get("shared") else "true"
-                ones.append((i, f"({c_graph(g)}, ({c_res(obs['outcome'], 'tt')}, {c_orders(g, obs['after'])}), {w})"))
+                ones.append((i, f"({c_graph(g)}, {case['target']}, ({c_res(obs['outcome'], 'tt')}, "
+                                f"{c_orders(g, obs['after'])}), {w})"))
         text = CASE_HEADER
-        text += ("Definition ones : list (graph * (res unit * list (nat * list nat)) * bool) :=\n "
+        text += ("Definition ones : list (graph * nat * (res unit * list (nat * list nat)) * bool) :=\n "
                  + clist("\n  " + t for _, t in ones) + ".\n")
         text += ("Definition passes : list (list graph * (res bool * list (list (nat * list nat)))) :=\n "
                  + clist("\n  " + t for _, t in passes) + ".\n")
